@@ -244,6 +244,37 @@ func TestC04(t *testing.T) {
 			return
 		}
 
+		// one SignatureInfo value kept for a folder whose content changes while its layout does not
+		// (same container, same number of hashes): after its Hashes were brought up to date, the
+		// folder validates against it
+		var victim string
+		for _, p := range pair.New.Files() {
+			if len(pair.New[p].Data) > 0 {
+				victim = p
+				break
+			}
+		}
+		if victim != "" && rapid.IntRange(0, 2).Draw(rt, "refreshsignature") == 0 {
+			nd := append([]byte{}, pair.New[victim].Data...)
+			pos := rapid.IntRange(0, len(nd)-1).Draw(rt, "refreshpos")
+			nd[pos] ^= 0x5a
+			Must(os.WriteFile(filepath.Join(newDir, victim), nd, os.FileMode(0o644)), "rewrite a file of the new build")
+			var h3 []wsync.BlockHash
+			var rerr error
+			if p := Recover(func() {
+				h3, rerr = pwr.ComputeSignature(context.Background(), si.Container, fspool.New(si.Container, newDir), Quiet())
+			}); p != "" || rerr != nil {
+				Violation(rt, "C04/compute-signature-failed", "ComputeSignature after a same-size rewrite: err=%v panic=%s", rerr, p)
+				return
+			}
+			si.Hashes = h3
+			if e := pwr.AssertValid(newDir, si); e != nil {
+				Violation(rt, "C04/refreshed-signature", "a SignatureInfo that validated the build once, then had its Hashes replaced by those of the folder's present content (same container, byte %d of %s changed), rejects the undamaged folder: %v", pos, victim, e)
+				return
+			}
+			Ev.Probe("signature_info_reused_with_refreshed_hashes")
+		}
+
 		nfiles := len(pair.New.Files())
 		for _, p := range pair.New.Files() {
 			n := len(pair.New[p].Data)
